@@ -33,7 +33,7 @@ ASSUMPTIONS = [
     "the expansion's metadata slots are observed but not demanded by C15 (the statement speaks of non-metadata fields; C16 decides them for rdump)",
     "replacement values handed to _replace / init_from_dict are already of the field's type (no conversion semantics are assumed)",
     "init_from_record is exercised with same-typed shared field names (cross-type conversion is C05's subject)",
-    "a name repeated in a projection list may appear repeatedly in the projected descriptor's field tuples; slots and values are compared de-duplicated",
+    "a name repeated in a projection list is projected once, at its first mention (the library's descriptor is compared exactly, never de-duplicated)",
     "field names starting with an underscore are not generated (reserved); writes through a grouped view are not part of the statement",
 ]
 SHARDS = {"quick": 8, "thorough": 16}
@@ -184,6 +184,32 @@ def describe(objs):
     return out
 
 
+KEY_DUP = "projection-repeated-name-duplicates-field"
+
+
+def compare_quiet(got, exp, skip_slots=()):
+    """True when the observations DIFFER (ignoring the given slots)."""
+    if skip_slots and model.is_rec(got) and model.is_rec(exp):
+        got = ["rec", got[1], got[2], [s for s in got[3] if s[0] not in skip_slots]]
+        exp = ["rec", exp[1], exp[2], [s for s in exp[3] if s[0] not in skip_slots]]
+    return got != exp
+
+
+def slots_match_descriptor(ctx, r, where, detail):
+    """A plain record's descriptor declares exactly its data slots: same names, same order, each once."""
+    if hasattr(r, "descriptors"):
+        return True
+    declared = [str(n) for _, n in r._desc.get_field_tuples()]
+    slots = [k for k in r.__slots__ if k not in model.META]
+    if declared == slots:
+        ctx.event("descriptor_vs_slots_checked")
+        return True
+    if len(declared) != len(set(declared)) and [n for i, n in enumerate(declared) if n not in declared[:i]] == slots:
+        return False  # a repeated declaration: reported (and classified) by the caller's comparison
+    ctx.violation(None, "%s: descriptor field list and data slots disagree" % where, detail=dict(detail, declared=declared, slots=slots))
+    return False
+
+
 def compare(ctx, what, got, exp, detail, skip_slots=()):
     """got/exp = normalised record observations.  -> True when equal."""
     if skip_slots and model.is_rec(got) and model.is_rec(exp):
@@ -222,6 +248,7 @@ def do_extend(ctx, case, mk):
                       detail={"exception": repr(ex)[:300], "inputs": describe(recs), "replace": replace, "name": name})
         return
     typed_ok(ctx, e, "extended record")
+    slots_match_descriptor(ctx, e, "extended record", {"inputs": describe(recs), "replace": replace, "name": name})
     exp_fields = model.merge_fields([model.fields_of(o) for o in flat], replace)
     exp_name = name if name is not None else flat[0][1]
     detail = {"inputs": describe(recs), "replace": replace, "name": name}
@@ -504,9 +531,21 @@ def do_project(ctx, case, mk):
     for o in (out, out2):
         typed_ok(ctx, o, "projected record")
         got = nobs(o)
+        ok = slots_match_descriptor(ctx, o, "projected record", detail) and ok
         if model.is_rec(got) and len(got[2]) != len(model.dedup_fields(got)[2]):
+            # the projected descriptor declares a field more than once
             ctx.event("projected_descriptor_repeats_a_field")
-        ok = compare(ctx, "field projection / exclusion differs from the model", model.dedup_fields(got), exp, detail, skip_slots=skip) and ok
+            declared = [n for _, n in got[2]]
+            repeated_decl = set(n for n in declared if declared.count(n) > 1)
+            dup = bool(repeated_decl) and repeated_decl <= set(f for f in fields if fields.count(f) > 1)
+            rest_ok = model.dedup_fields(got) == exp or not compare_quiet(model.dedup_fields(got), exp, skip)
+            key = KEY_DUP if (dup and rest_ok) else None
+            ctx.violation(key, "field projection declares a field more than once in the projected descriptor" if key else
+                          "field projection / exclusion differs from the model",
+                          detail=dict(detail, real_fields=got[2], model_fields=exp[2] if model.is_rec(exp) else None))
+            ok = False
+            continue
+        ok = compare(ctx, "field projection / exclusion differs from the model", got, exp, detail, skip_slots=skip) and ok
     if ok:
         ctx.event("project_checked")
     unchanged(ctx, "RecordFieldRewriter.rewrite", [rec], [before])
